@@ -99,6 +99,17 @@ theorem c14_clear (d : Nat) (is : List In) (i : In) (hc : i.c = true) :
   · unfold stored; simp [abs, ha]
   · intro j; simp [step, ha]
 
+
+-- OBLIGATION c14_callers : when several transactions call read (resp. write) in one cycle, at most one of the callers executes, it is one that attempted, and it gets exactly the single-port outcome of the step — so the theorems above hold for the union of all callers (every value delivered to exactly one reader)
+theorem c14_callers (d : Nat) (s : State) (ow or : List Nat) (i : MIn) (k1 k2 v1 v2 : Nat) :
+    let e := eff ow or i
+    let o := (step d s ⟨e.w, e.r, e.p, e.c⟩).2
+    ((onlyTo i.ws.length e.gr o.rd)[k1]? = some (some v1) → (onlyTo i.ws.length e.gr o.rd)[k2]? = some (some v2) →
+        k1 = k2 ∧ o.rd = some v1 ∧ i.rs.getD k1 false = true) ∧
+    ((onlyTo i.ws.length e.gw o.wr)[k1]? = some (some v1) → (onlyTo i.ws.length e.gw o.wr)[k2]? = some (some v2) →
+        k1 = k2 ∧ o.wr = some v1 ∧ (i.ws.map Option.isSome).getD k1 false = true) :=
+  ⟨fun h1 h2 => callers_exclusive h1 h2, fun h1 h2 => callers_exclusive h1 h2⟩
+
 /-! ### `connectors.FIFO` (wrapper over `SyncFIFO`, modelled as the bounded queue) -/
 
 -- OBLIGATION c14_fifo_order : FIFO (ideal-queue model, every depth ≥ 0, every history): delivered ++ stored = written
@@ -135,6 +146,17 @@ theorem c14_fifo_ready (d : Nat) (q : List Nat) (hq : q.length ≤ d) (w : Optio
     · have : q.length < d := by omega
       cases r <;> cases q <;> cases w <;> simp_all <;> omega
 
+
+-- OBLIGATION c14_fifo_callers : when several transactions call read (resp. write) in one cycle, at most one of the callers executes, it is one that attempted, and it gets exactly the single-port outcome of the step — so the theorems above hold for the union of all callers (every value delivered to exactly one reader)
+theorem c14_fifo_callers (d : Nat) (q : List Nat) (ow or : List Nat) (i : MIn) (k1 k2 v1 v2 : Nat) :
+    let e := eff ow or i
+    let o := (specStep d q (fifoIn e.w e.r)).2
+    ((onlyTo i.ws.length e.gr o.rd)[k1]? = some (some v1) → (onlyTo i.ws.length e.gr o.rd)[k2]? = some (some v2) →
+        k1 = k2 ∧ o.rd = some v1 ∧ i.rs.getD k1 false = true) ∧
+    ((onlyTo i.ws.length e.gw o.wr)[k1]? = some (some v1) → (onlyTo i.ws.length e.gw o.wr)[k2]? = some (some v2) →
+        k1 = k2 ∧ o.wr = some v1 ∧ (i.ws.map Option.isSome).getD k1 false = true) :=
+  ⟨fun h1 h2 => callers_exclusive h1 h2, fun h1 h2 => callers_exclusive h1 h2⟩
+
 /-- non-vacuity: depth 3, a history with wrap-around, simultaneous read/write/peek, a clear
     racing with a write, and a later read; the theorems' hypotheses are met and the outputs
     are the expected ones -/
@@ -160,6 +182,8 @@ end TxV.BasicFifo
 #print axioms TxV.BasicFifo.c14_peek
 #print axioms TxV.BasicFifo.c14_ready
 #print axioms TxV.BasicFifo.c14_clear
+#print axioms TxV.BasicFifo.c14_callers
+#print axioms TxV.BasicFifo.c14_fifo_callers
 #print axioms TxV.BasicFifo.c14_fifo_order
 #print axioms TxV.BasicFifo.c14_fifo_read_value
 #print axioms TxV.BasicFifo.c14_fifo_ready
